@@ -1,0 +1,9 @@
+//go:build verif
+
+package ros
+
+// VerifGetSchemas exposes the schema assembly step of DB3ToMCAP (getSchemas) to the verification
+// harness. Read-only; compiled only with the verif build tag.
+func VerifGetSchemas(directories []string, types []string) (map[string][]byte, error) {
+	return getSchemas(directories, types)
+}
